@@ -16,12 +16,13 @@ type FuncResult struct {
 	Unsupported string
 	UnknownCalls []string
 	Axioms      []string
+	Assumed     []string
 }
 
 func (e *Engine) newFX(fn *ssa.Function, name string, c *Contract) *FX {
 	return &FX{e: e, fn: fn, name: name, c: c,
 		compSorts: map[string]string{}, knownComps: map[string]bool{}, epochConsts: map[string]Term{},
-		obCount: map[string]int{}, inputs: map[string]string{}, usesAx: map[string]bool{}, bufSlices: map[string]Term{},
+		obCount: map[string]int{}, inputs: map[string]string{}, usesAx: map[string]bool{}, usedAssumed: map[string]bool{}, bufSlices: map[string]Term{},
 		invAssumed: map[string]bool{}, invBroken: map[string]bool{}}
 }
 
@@ -72,6 +73,10 @@ func (e *Engine) VerifyFunc(fn *ssa.Function, c *Contract) (res *FuncResult) {
 				res.Axioms = append(res.Axioms, a)
 			}
 			sort.Strings(res.Axioms)
+			for a := range fx.usedAssumed {
+				res.Assumed = append(res.Assumed, a)
+			}
+			sort.Strings(res.Assumed)
 		}
 	}
 	return res
